@@ -31,6 +31,10 @@ def H(cls, fn, bound=""):
 
 
 STACK = {"unit": "stack", "rlimit": 60, "tiers": Q}
+# the lookups that the unit `stack` takes by contract, proved from their bodies (listed wherever fill_thread_stack /
+# get_stack_info carry a property, so that the evidence shows the assumption discharged in the same run)
+def LOOKUPS(tag):
+    return {"unit": "find_mapping", "functions": ["find_mapping", "may_be_stack"], "tags": [tag], "tiers": Q}
 
 # ---------------------------------------------------------------------------
 # shared Kani groups
@@ -242,7 +246,7 @@ PLAN["C07"] = {
                    "app_memory::write proved verbatim for any number of requests: one block per request, in order, each naming bytes appended by the call that equal target memory (reader contract); "
                    "the instruction-pointer window is a bounded Kani obligation plus a native check on a live child",
     "verus": [dict(STACK, functions=["fill_thread_stack", "memory_list_stream_write"], tags=["C07"]),
-              {"unit": "app_memory", "functions": ["app_memory_write"], "tags": ["C07"], "tiers": Q}],
+              {"unit": "app_memory", "functions": ["app_memory_write"], "tags": ["C07"], "tiers": Q}, LOOKUPS("C07")],
     "kani": [{"tiers": Q, "jobs": 2, "timeout": 900, "harnesses": {
                  "vk_app_memory_two_regions": H("B", "app_memory::write", "2 requests, symbolic addresses, lengths 1..=3")}},
              {"tiers": T, "jobs": 2, "timeout": 3600, "mem_gb": 24, "harnesses": {"vk_tls_crash_context_thread": K_TLS["vk_tls_crash_context_thread"]}}],
@@ -260,7 +264,7 @@ PLAN["C20"] = {
                    "or the copied bytes hold an aligned pointer into it; crash_thread_references_principal_mapping uses the same half-open range; "
                    "the stack scanner itself is proved against has_ptr for stack copies of any length (unit stack_scan, byteorder stand-in) and cross-checked by Kani on the real byteorder code at stated lengths; dump() reports PrincipalMappingNotReferenced (thorough)",
     "verus": [dict(STACK, functions=["fill_thread_stack", "crash_thread_references_principal_mapping"], tags=["C20"]),
-              {"unit": "find_mapping", "functions": ["find_mapping_no_bias"], "tags": ["C20"], "tiers": Q},
+              {"unit": "find_mapping", "functions": ["find_mapping_no_bias", "find_mapping", "may_be_stack"], "tags": ["C20"], "tiers": Q},
               {"unit": "stack_scan", "functions": ["stack_has_pointer_to_mapping"], "tags": ["C20"], "tiers": Q}],
     "kani": [{"tiers": Q, "jobs": 4, "timeout": 900, "harnesses": K_HAS_PTR},
              {"tiers": T, "jobs": 1, "timeout": 1800, "mem_gb": 24, "harnesses": {"vk_has_ptr_len24": H("B", "MappingInfo::stack_has_pointer_to_mapping", "24-byte symbolic stack copy")}},
@@ -474,7 +478,7 @@ PLAN["C01"] = {
                    "thread_names_stream::write and app_memory::write by Kani (bounded); exactly 18 entries, each through write_to_file (Kani, thorough)",
     "verus": [dict(STACK, functions=["fill_thread_stack", "memory_list_stream_write", "exception_stream_write"], tags=["C01"]),
               {"unit": "dir_section", "functions": ["new", "dump_dir_entry", "write_to_file"], "tags": ["C01"], "tiers": Q},
-              {"unit": "app_memory", "functions": ["app_memory_write"], "tags": ["C01"], "tiers": Q},
+              {"unit": "app_memory", "functions": ["app_memory_write"], "tags": ["C01"], "tiers": Q}, LOOKUPS("C01"),
               {"unit": "mem_writer", "functions": None, "tags": ["C16"], "tiers": Q}],
     "kani": [{"tiers": Q, "jobs": 6, "timeout": 1500, "harnesses": dict(K_THREAD_NAMES, **dict(K_ARRAYS, **{"vk_app_memory_two_regions": H("B", "app_memory::write", "2 requests")}))},
              {"tiers": T, "jobs": 3, "timeout": 5400, "mem_gb": 20, "harnesses": dict(K_GENERATE, **K_TLS)}],
